@@ -35,9 +35,42 @@ func (c *Ctx) errorEscapes(v ssa.Value, seen map[ssa.Value]bool, depth int) bool
 		case *ssa.Return:
 			return true
 		case *ssa.Store:
-			if x.Val == v {
-				return true
+			if x.Val != v {
+				continue
 			}
+			// stored into the argument list of a variadic call (fmt.Errorf("%w ...", err)): what counts is where that
+			// call's own result goes - a wrapped error assigned to a shadowed, dead variable has gone nowhere
+			if al, ok := addrRoot(x.Addr).(*ssa.Alloc); ok && al.Comment == "varargs" {
+				handed := false
+				for _, r1 := range *al.Referrers() {
+					sl, ok := r1.(*ssa.Slice)
+					if !ok {
+						continue
+					}
+					for _, r2 := range *sl.Referrers() {
+						ci, ok := r2.(ssa.CallInstruction)
+						if !ok {
+							continue
+						}
+						n := calleeName(ci.Common())
+						if strings.HasPrefix(n, "log/slog.") || strings.HasPrefix(n, "fmt.Sprint") {
+							continue
+						}
+						if call, ok := r2.(*ssa.Call); ok && isErrorish(call.Type()) {
+							if c.errorEscapes(call, seen, depth+1) {
+								return true
+							}
+							handed = true
+							continue
+						}
+						return true
+					}
+				}
+				if handed {
+					continue
+				}
+			}
+			return true
 		case *ssa.Phi:
 			if c.errorEscapes(x, seen, depth+1) {
 				return true
@@ -604,6 +637,10 @@ var reviewedMutableGlobals = map[string]string{}
 // checkNoHiddenState: the packages that compute pitches, intervals, scales and events keep no state between calls: a
 // package-level variable is written by the package initialiser only. A memo table or a cache there makes the answer for
 // one input depend on what was asked before (and is where a wrong key for the memo hides).
+func init() {
+	register("STATE", "the packages that compute pitches, intervals, scales, conversions and events keep no state between calls: a package-level variable is written by its package initialiser only", 10, func(c *Ctx) { c.checkNoHiddenState() })
+}
+
 func (c *Ctx) checkNoHiddenState() {
 	if c.hiddenStateChecked {
 		return
